@@ -283,6 +283,14 @@ class FormatError(Exception):
 
 
 def setfl_tokens(text, fs, adp=False):
+    """tokens of a setfl / ADP file; any departure from the layout (also one that makes a header field unreadable as a number) is a FormatError"""
+    try:
+        return _setfl_tokens(text, fs, adp)
+    except (ValueError, IndexError) as e:
+        raise FormatError("unreadable setfl layout: %s: %s; the first lines are %r" % (type(e).__name__, e, text.split("\n")[:5]))
+
+
+def _setfl_tokens(text, fs, adp=False):
     L = text.split("\n")
     if L and L[-1] == "":
         L = L[:-1]
@@ -477,3 +485,20 @@ def shrink_pairs(case, still_fails):
             except Exception:
                 pass
     return best
+
+
+_REWRITE = [0]
+
+
+def write_second_time(tab, s):
+    """every other tabulation object is walked and written once into a throw-away stream before the write that is compared: the compared output is then the object's
+    SECOND write - a tabulation may be listed and written any number of times (round-7 seeds C03_11: one-shot iterator kept as `.potentials`; C19_11: the Excel
+    workbook dropped after the first write)"""
+    _REWRITE[0] += 1
+    if _REWRITE[0] % 2 == 0:
+        for attr in ("potentials", "eam_potentials"):
+            if hasattr(tab, attr):
+                for _ in getattr(tab, attr):
+                    pass
+        tab.write(type(s)())
+    tab.write(s)
